@@ -726,6 +726,59 @@ func TestC08Build(t *testing.T) {
 		} else if len(defectClasses(m)) == 0 {
 			f = fail("C08", "rejected-resolvable", kit.Classify(x.Build.Err), "no cycle, no captive dependency, nothing required missing, yet Build failed: %v", firstLine(x.Build.Err))
 		}
+		// the same must hold for a later Build of the same collection after a registration was removed
+		if f == nil && rapid.IntRange(0, 2).Draw(rt, "rebuild") == 0 {
+			var cands []int
+			for i := range cfg.Regs {
+				ps := cfg.Regs[i].Provides()
+				if len(ps) != 1 || ps[0].Ident.Group != "" {
+					continue
+				}
+				ambiguous := false
+				if ps[0].Ident.Key == "" {
+					for _, id := range m.AllIdents() {
+						if id.T == ps[0].Ident.T && (id.Key != "" || id.Group != "") {
+							ambiguous = true
+						}
+					}
+				}
+				if !ambiguous {
+					cands = append(cands, i)
+				}
+			}
+			if len(cands) > 0 {
+				ri := rapid.SampledFrom(cands).Draw(rt, "removeReg")
+				id := cfg.Regs[ri].Provides()[0].Ident
+				if id.Key == "" {
+					x.R.Coll.Remove(kit.RType(id.T))
+				} else {
+					x.R.Coll.RemoveKeyed(kit.RType(id.T), id.Key)
+				}
+				cfg2 := kit.CloneConfig(cfg)
+				cfg2.Regs = append(cfg2.Regs[:ri:ri], cfg2.Regs[ri+1:]...)
+				m2, _ := kit.NewModel(cfg2)
+				r2 := kit.NewRunner(x.W)
+				r2.Coll = x.R.Coll
+				y := &run{Cfg: cfg2, W: x.W, M: m2, R: r2}
+				y.Build = r2.BuildExisting()
+				col.Label("rebuild-after-remove")
+				switch {
+				case y.Build.Panic != nil:
+					f = fail("C08", "no-panic", "rebuild", "second Build panicked: %v", y.Build.Panic)
+				case y.Build.Err == nil:
+					_, obs := y.resolveEverything()
+					for _, o := range obs {
+						if o.Err != nil && kit.IsNotFound(o.Err) {
+							f = fail("C08", "accepted-unresolvable", "rebuild-after-remove", "after removing %s a second Build succeeded but %s(s%d,%s) fails with service-not-found: %v (model: missing %v)", id, o.Kind, o.Scope, o.Ident, firstLine(o.Err), m2.Missing())
+							break
+						}
+					}
+					r2.CloseProvider()
+				case len(defectClasses(m2)) == 0:
+					f = fail("C08", "rejected-resolvable", "rebuild-after-remove/"+kit.Classify(y.Build.Err), "after removing %s the set has no defect, yet the second Build failed: %v", id, firstLine(y.Build.Err))
+				}
+			}
+		}
 		if f != nil {
 			if isKnown(f) {
 				col.Excluded()
